@@ -91,6 +91,7 @@ func (s Calls) StartAll() {
 func (s Calls) AwaitAll() map[*Call]error {
 	// Since each Await call blocks, we call it in parallel and then collect
 	errors := make(map[*Call]error)
+	errorsMu := &sync.Mutex{}
 	wg := &sync.WaitGroup{}
 	wg.Add(len(s))
 	for _, v := range s {
@@ -98,7 +99,9 @@ func (s Calls) AwaitAll() map[*Call]error {
 			defer wg.Done()
 			err := v.Await()
 			if err != nil {
+				errorsMu.Lock()
 				errors[v] = err
+				errorsMu.Unlock()
 			}
 		}(v)
 	}
